@@ -621,6 +621,14 @@ Definition switch_plain_globalb (module : list string) (helpers : list (string *
 Definition modelled_add_loops : list string :=
   ["for member in all_members"; "for t in targets"; "for t in targets"; "for t in targets"].
 Definition modelled_hint_loops : list string := ["targets"].
+(* _check_arg_list: the permitted names are collected in a LIST of the members' names and a keyword is tested by membership in that
+   list (member_names of the model) - not against a joined string or by prefix *)
+Definition modelled_arg_check : list string :=
+  ["member_names = []"; "member_names.append(m.get_name())"; "arg not in member_names"].
+Definition arg_check_okb (found : list string) : bool := strl_eqb found modelled_arg_check.
+(* the hint names a candidate by EQUALITY with the member's name (no substring / prefix / list membership) *)
+Definition modelled_hint_tests : list string := ["hint == t.get_name()"].
+Definition hint_test_okb (tests : list string) : bool := strl_eqb tests modelled_hint_tests.
 Definition hint_loop_okb (loops hint_loops : list string) : bool :=
   strl_eqb loops modelled_add_loops && strl_eqb hint_loops modelled_hint_loops.
 
@@ -686,6 +694,18 @@ Definition decl_coveredb (px : list pyxml) (ms : list mspec) (d : sdecl) : bool 
 (* string sets *)
 Definition subset (a b : list string) : bool := forallb (fun x => mem x b) a.
 Definition set_eqb (a b : list string) : bool := subset a b && subset b a.
+
+(* read-only helpers leave nothing on the instance.  add() recognises "an equal child is already present" with __eq__, which compares
+   the instance dictionaries; the model's equality compares the member fields.  The two agree as long as methods that are read-only by
+   their name (__str__, __repr__, summary, get_* / is_* / has_* ...) write nothing on self (translators/tr_helpers.py lists, per
+   method, the writes it finds).  The ones below exist in the code under test today and are reported as a known finding; anything
+   else breaks the obligation. *)
+Definition known_reader_writes : list string :=
+  ["Cell.get_graph: assigns self.cell_graph";
+   "Cell.get_segment_adjacency_list: assigns self.adjacency_list";
+   "Network.get_by_id: assigns self.warn_count";
+   "NeuroMLDocument.get_by_id: assigns self.warn_count"].
+Definition readers_write_nothing_newb (found : list string) : bool := subset found known_reader_writes.
 
 (* ------------------------------------------------------------------ executable instance (correspondence runs only)
    F := finite decimals (as Model/GdsExec.v); the order of _get_members is the table order (the theorems hold for
